@@ -41,7 +41,8 @@ CLAIMS["C37"] = dict(
     technique="bounded symbolic execution of feature_flags.rs and version.rs with Kani+CBMC (all u64 flag words, all version variants / number pairs / short ASCII strings)",
     text=("Decides for every u64 flag word that readers and writers refuse exactly the words carrying a bit outside the known flags, that the known "
           "flags tile the bits below FLAG_UNKNOWN, that apply_feature_flags sets each flag iff its condition holds on an arbitrary manifest shape "
-          "(<=3 fragments) and rejects mixed row-id presence, and that LanceFileVersion names, numbers and aliases convert consistently. "
+          "(<=3 fragments) and rejects mixed row-id presence, that LanceFileVersion names, numbers and aliases convert consistently, and that a manifest "
+          "passing check_storage_version has data files of exactly its storage version (<=2 fragments x <=2 files, arbitrary version numbers). "
           "All-inputs SAT verdicts fit because the code is pure bit/enum logic."),
     note="Manifest is a structural model of the fields feature_flags.rs reads; to_lowercase is modelled on ASCII.",
 )
